@@ -61,7 +61,7 @@ func genCase(t *rapid.T, env *ev.Env) Case {
 			prog.OpCreateBucket: 3, prog.OpDeleteBucket: 2, prog.OpSetVersioning: 2,
 			prog.OpPut: 14, prog.OpDelete: 5, prog.OpDeleteObjects: 2,
 			prog.OpCopy: 2, prog.OpAppend: 6, prog.OpPutTags: 2, prog.OpMpuSeq: 1, prog.OpTransition: 1,
-			prog.OpHead: 5, prog.OpGet: 8, prog.OpList: 5, prog.OpFlush: 3,
+			prog.OpHead: 5, prog.OpGet: 8, prog.OpList: 5, prog.OpFlush: 3, prog.OpReopen: 3,
 		},
 		Classes:    []string{"STANDARD", "GLACIER"},
 		Conditions: true, Meta: true, Tags: true, Supplied: true, Versions: false, HotKey: true,
@@ -295,6 +295,27 @@ func runCase(env *ev.Env, c Case) (o ev.Outcome) {
 	sess := run.NewSession(names, ts, os_)
 
 	for i, op := range c.Ops {
+		if op.Kind == prog.OpReopen {
+			// restart of the outbox: a new instance over the same outbox database and inner storage, with whatever
+			// is still queued (harness-owned mode: no worker goroutine to stop). Everything acknowledged before
+			// the restart still counts: reads and conditional writes must wait for / see the queued entries
+			// (seeded defect S-C07-3: an in-memory "nothing queued" fast path that is not rebuilt from the table).
+			if c.Worker {
+				continue
+			}
+			pendingAtRestart := os_.pendingCount()
+			ob2, err := outbox.NewStorage(obDB, "verif-outbox", &noLifecycle{delegator.Wrap(inner.Storage)}, repo, prometheus.NewRegistry(), 0)
+			if err != nil {
+				o.Failf("harness: outbox.NewStorage (restart): %v", err)
+				return
+			}
+			os_.ob, os_.side = ob2, prog.NewStorageSide(ob2)
+			o.Class("restart")
+			if pendingAtRestart > 0 {
+				o.Class("restart-with-entries-queued")
+			}
+			continue
+		}
 		if op.Kind == prog.OpFlush {
 			if !c.Worker {
 				os_.flush()
